@@ -562,3 +562,32 @@ Fixpoint serve_all (m : compilers) (qs : list compile_req) : list bool * compile
   | q :: r => let '(a, m1) := compiler_info m q in
               let '(as_, m2) := serve_all m1 r in (a :: as_, m2)
   end.
+
+(* ================================================================================================
+   Which address the spawned server reports (server.rs `start_server`, net.rs `SocketAddr`).
+   The client names the server by SCCACHE_SERVER_PORT or SCCACHE_SERVER_UDS (a path, spelled any way the
+   user likes: through symlinked directories, with `..`, `.`, doubled separators; or an abstract name).
+   start_server binds EXACTLY the address it was given (TcpListener::bind(addr), UnixListener::bind(path):
+   no resolution of the path) and reports `local_addr()` rendered with Display — for a path socket the
+   kernel hands back the sun_path it was given.  The client compares that rendering with the rendering of
+   the address it asked for, as strings.                                                             *)
+
+Inductive saddr :=
+| TcpPort (port : N)
+| UdsPath (path : list N)          (* the bytes of SCCACHE_SERVER_UDS, as spelled *)
+| UdsAbstract (name : list N).
+
+(* Display for SocketAddr; only its being a function of the address value matters here *)
+Definition addr_string (a : saddr) : list N :=
+  match a with
+  | TcpPort p => [49; 50; 55; 46; 48; 46; 48; 46; 49; 58; p]      (* "127.0.0.1:" port *)
+  | UdsPath p => p
+  | UdsAbstract n => [92; 120; 48; 48] ++ n                        (* "\x00" name *)
+  end.
+
+(* the address the server binds for a requested one: the same value, not a normalised one *)
+Definition server_binds (requested : saddr) : saddr := requested.
+
+(* ServerStartup::Ok { addr: local_addr().to_string() } as judged by `addr.to_string() != actual_addr` *)
+Definition report_of_started_server (requested : saddr) : startup_report :=
+  SOk (path_eqb (addr_string requested) (addr_string (server_binds requested))).
